@@ -190,6 +190,51 @@ class OnThreadStart(FnSpec):
         ex.oblige("post[baseline = snapshot of the tree at start()]", isinstance(s, VRef) and z3.is_true(z3.simplify(s.t == self.snap)))
 
 
+class PollInit(FnSpec):
+    """the snapshot taker uses the watch's path and recursion flag and the injected stat/listdir (PollingObserverVFS)"""
+    relpath, qualname, prop = POLLING, "PollingEmitter.__init__", PROP
+    inline = {"EventEmitter.watch", "ObservedWatch.path", "ObservedWatch.is_recursive"}
+
+    def __init__(self, W, prop=PROP):
+        self.W, self.world, self.prop = W, W, prop
+
+    def globals(self):
+        W = self.W
+
+        def snap(ex, a, k, n):
+            self.snap_args = (a, k)
+            return W.Snap.wrap(ex.fresh_term(W.SnapS, "snapshot"))
+        return {"EventEmitter.__init__": lambda ex, recv, a, k, n: None, "EmptyDirectorySnapshot": lambda ex, a, k, n: VOpaque("EmptyDirectorySnapshot"), "threading.Lock": lambda ex, a, k, n: VOpaque("lock", "polling._lock"),
+                "DirectorySnapshot": snap}
+
+    def setup(self, ex):
+        W = self.W
+        self.me = VObj("PollingEmitter")
+        self.wp = ex.fresh_term(W.PS, "watch_path")
+        self.rec = ex.fresh_term(z3.BoolSort(), "recursive")
+        self.watch = VObj("ObservedWatch")
+        ex.heap[(self.watch.id, "_path")] = W.Path.wrap(self.wp)
+        ex.heap[(self.watch.id, "_is_recursive")] = VBool(self.rec)
+        ex.heap[(self.me.id, "_watch")] = self.watch
+        self.stat, self.listdir = VOpaque("stat_fn"), VOpaque("listdir_fn")
+        self.snap_args = None
+        return {"self": self.me, "event_queue": VOpaque("q"), "watch": self.watch, "timeout": VOpaque("t"), "event_filter": None, "stat": self.stat, "listdir": self.listdir}
+
+    def post(self, ex, result):
+        W = self.W
+        H = ex.heap
+        ex.oblige("post[before start the baseline is the empty snapshot]", isinstance(H.get((self.me.id, "_snapshot")), VOpaque) and H[(self.me.id, "_snapshot")].kind == "EmptyDirectorySnapshot")
+        take = H.get((self.me.id, "_take_snapshot"))
+        ok = isinstance(take, VFunc)
+        ex.oblige("post[a snapshot taker is installed]", ok)
+        if ok:
+            ex.call(take, [], {}, None)
+            a, k = self.snap_args if self.snap_args else ([], {})
+            good = bool(a) and isinstance(a[0], VRef) and k.get("stat") is self.stat and k.get("listdir") is self.listdir
+            ex.oblige("post[snapshots are taken of the watched path with the injected stat and listdir]", z3.And(z3.BoolVal(good), W.Path.unwrap(a[0]) == self.wp) if good else False)
+            ex.oblige("post[snapshots are recursive iff the watch is]", TBool.unwrap(k.get("recursive")) == self.rec if good else False)
+
+
 # ------------------------------------------------------------------------------------------------ snapshot walk
 class SWorld:
     """paths/stat for the walk: Path with a type tag (C19), join, Stat with st_mode; directory listing entries"""
@@ -468,11 +513,15 @@ class SnapInit(FnSpec):
 def make_specs():
     W = PWorld()
     SW = WalkWorld()
-    return [PollQueueEvents(W), OnThreadStart(W), Walk(SW), SnapInit(SW)]
+    return [PollInit(W), PollQueueEvents(W), OnThreadStart(W), Walk(SW), SnapInit(SW)]
 
 
 def type_specs(prop):
-    return []
+    """C19, polling side: the walk yields join(root, entry.name) (type of the root given by the caller, E2) and the
+    emitter hands the diff's paths to the event constructors unchanged"""
+    a, b = Walk(WalkWorld(), prop), PollQueueEvents(PWorld())
+    b.prop = prop
+    return [a, b]
 
 
 EXPECTED_CLAUSES = ["queue_events.post[files_deleted -> FileDeletedEvent", "queue_events.post[dirs_moved -> DirMovedEvent", "queue_events.post[root gone", "queue_events.post[the new snapshot becomes the baseline]",
